@@ -202,3 +202,9 @@ def run(ctx):
           ctx.ob('R36.4', bb.n, 'Arg::env on a global option', False, 'clap would read this option from the environment itself, below the flag but outside Settings::merge', where(bb, c.line))
   ctx.floor('R36.4', 'clap Arg definitions inspected', n_args, 20)
   ctx.ob('R36.4', 'ord::options::Options', 'no global option declares a clap env source', True, '', nontrivial=False)
+
+
+# sensitivity pack (thorough tier): each seeded edit must be reported by the named rule instance
+MUTANTS = [{'name': 'or-receiver-swapped', 'file': 'src/settings.rs', 'old': 'index: self.index.or(source.index),', 'new': 'index: source.index.or(self.index),', 'expect': ('R36.1', 'Settings::or', 'index = self.index.or')},
+           {'name': 'env-before-flags', 'file': 'src/settings.rs', 'old': 'let settings = Settings::from_options(options).or(Settings::from_env(env)?);', 'new': 'let settings = Settings::from_env(env)?.or(Settings::from_options(options));', 'expect': ('R36.2', 'Settings::merge', 'from_options(options).or(from_env')},
+           {'name': 'env-key-crossed', 'file': 'src/settings.rs', 'old': 'index_runes: get_bool("INDEX_RUNES"),', 'new': 'index_runes: get_bool("INDEX_SATS"),', 'expect': ('R36.3', 'from_env', 'index_runes <- get_bool')}]
